@@ -88,6 +88,19 @@ def direct_laws(op, rng, n_sets):
             if not np.allclose(comb, out + 1j * np.asarray(f(V.copy())), rtol=0, atol=1e-8 * np.abs(out).max()):
                 bad.append(("%s:not-linear" % name, dict(N=N, lam=lam, d1=d1, z=z, m=m)))
                 return bad, done
+    # real-valued and single-precision input fields
+    N, d1, lam, z = 8, 0.01, 1e-6, 500.0
+    Ur = rng.standard_normal((N, N))
+    for name, f in (("angularSpectrum", lambda W: op.angularSpectrum(W, lam, d1, 1.5 * d1, z)), ("twoStepFresnel", lambda W: op.twoStepFresnel(W, lam, d1, 1.5 * d1, z)),
+                    ("oneStepFresnel", lambda W: op.oneStepFresnel(W, lam, d1, z)), ("lensAgainst", lambda W: op.lensAgainst(W, lam, d1, z))):
+        refc = np.asarray(f(Ur.astype(complex)))
+        done += 1
+        for nm, arr, tol_ in (("float64", Ur.copy(), 1e-12), ("int64", np.rint(Ur * 4).astype(np.int64), None), ("complex64", Ur.astype(np.complex64), 1e-5)):
+            want = refc if nm != "int64" else np.asarray(f(np.rint(Ur * 4).astype(complex)))
+            got = np.asarray(f(arr))
+            if got.shape != want.shape or not np.allclose(got, want, rtol=0, atol=(tol_ or 1e-12) * np.abs(want).max()):
+                bad.append(("%s:input-dtype-%s" % (name, nm), dict(err=float(np.abs(got - want).max()))))
+                return bad, done
     # the same geometry at a sequence of nearby wavelengths / distances in one process (each call must stand on its own)
     N, d1 = 8, 0.01
     U = rng.standard_normal((N, N)) + 1j * rng.standard_normal((N, N))
